@@ -51,7 +51,10 @@ func snapshotTree(top, skip string) map[string]string {
 // C16 No request can touch files outside the data root.
 func TestC16(t *testing.T) {
 	rec := hx.R("C16")
-	comps := []string{"..", "..", ".", "", "x", "SYM", "a b", "~", `\`, "価格", strings.Repeat("L", 300), "...", "..x", "G"}
+	// "root", "root2", "root.bak", "other", "l5": names of (and names sharing a prefix with) the directories
+	// around the data root, so that a key can leave the root and come back or land beside it
+	comps := []string{"..", "..", "..", ".", "", "x", "SYM", "a b", "~", `\`, "価格", strings.Repeat("L", 300), "...", "..x", "G",
+		"root", "root2", "root.bak", "other", "l5"}
 	rapid.Check(t, func(t *rapid.T) {
 		jail := hx.ScratchDir("jail")
 		defer os.RemoveAll(jail)
